@@ -35,6 +35,15 @@ def expected(name, docs):
 
 
 def run(ctx):
+    # b64filter hands every document to base64_decode and every answer to base64_encode: documents of 2^31 bytes and more
+    huge = pvlib.HugeB64(ctx).start()
+    try:
+        run_small(ctx)
+    finally:
+        huge.finish("b64filter-document-codec-huge")
+
+
+def run_small(ctx):
     rng = ctx.rng
     alph = [b"a", b"\n", b"\r", b"\0"]
     singles = []
